@@ -1,6 +1,6 @@
 """Binding of the reference model to bytes: GNU objdump as the independent x86-64 decoder (DESIGN 4.3).
 
-decode_many([bytes, ...]) -> [Dec, ...]: every byte string is placed in its own slot followed by 15 NOPs,
+decode_many([bytes, ...]) -> [Dec, ...]: every byte string is placed in its own slot followed by 15 one-byte int3 (0xcc),
 so that decoding is back in sync at the next slot whatever the slot contains.  The Intel-syntax text is
 parsed into the canonical form of DESIGN 4.2; anything not recognised becomes op 'raw', which compares
 unequal to every expectation.
@@ -198,6 +198,8 @@ def _objdump_file(path, starts):
     out = {}
     want_next = None  # (Dec, expected next address)
     for ln in p.stdout.decode("latin-1").split("\n"):
+        if want_next is None and ln.endswith("\tint3"):
+            continue   # padding (the library never emits int3)
         if ":\t" not in ln:
             continue
         head, _, tail = ln.partition(":\t")
@@ -225,6 +227,10 @@ def _objdump_file(path, starts):
     return out
 
 
+def _objdump_job(j):
+    return _objdump_file(*j)
+
+
 def decode_many(blobs, nproc=16):
     """blobs: list of bytes objects (distinct or not).  Returns list of Dec aligned with blobs."""
     n = len(blobs)
@@ -244,15 +250,20 @@ def decode_many(blobs, nproc=16):
                 bl = blobs[i]
                 starts[pos] = (i, len(bl))
                 chunks.append(bl)
-                chunks.append(b"\x90" * PAD)
+                chunks.append(b"\xcc" * PAD)
                 pos += len(bl) + PAD
-            chunks.append(b"\x90" * 4)
+            chunks.append(b"\xcc" * 4)
             with open(path, "wb") as f:
                 f.write(b"".join(chunks))
             jobs.append((path, starts))
         res = [None] * n
-        with ThreadPoolExecutor(max_workers=nsh) as ex:
-            for part in ex.map(lambda j: _objdump_file(*j), jobs):
+        if nsh == 1:
+            parts = [_objdump_file(*jobs[0])]
+        else:
+            with ThreadPoolExecutor(max_workers=nsh) as ex:
+                parts = list(ex.map(_objdump_job, jobs))
+        if True:
+            for part in parts:
                 for i, dec in part.items():
                     res[i] = dec
         for i in range(n):
